@@ -74,7 +74,8 @@ class C03(Prop):
         m = rng.choice(["get", "get", "gets", "gat", "gats", "get_many", "get_many", "gets_many", "stats",
                         "stats_settings", "stats_cachedump", "set", "add", "replace", "append", "cas", "set_many",
                         "delete", "delete_many", "incr", "decr", "touch", "version", "flush_all",
-                        "cache_memlimit", "raw_version", "raw_get", "raw_stats", "raw_config", "raw_multi"])
+                        "cache_memlimit", "raw_version", "raw_get", "raw_stats", "raw_config", "raw_multi",
+                        "raw_err", "raw_err"])
         a, k = [], {}
         key = rng.choice(keys)
         if m in ("get", "gets"):
@@ -118,6 +119,18 @@ class C03(Prop):
             a = [E(b"gets " + pfx + b"k1 " + pfx + b"k2"), E(b"\r\nEND\r\n")]
             if not any(st["t"] == "direct" and codec.dec(st["key"]) in (pfx + b"k1", pfx + b"k2") for st in steps):
                 steps.append({"t": "direct", "node": 0, "key": E(pfx + b"k1"), "value": E(b"present"), "flags": 0})
+        elif m == "raw_err":
+            # an error line answered to a command that is read with a custom end token
+            m = "raw_command"
+            kind = rng.choice(["unknown", "config-error", "client-error"])
+            tok = rng.choice([b"END\r\n", b"\n\r\nEND\r\n", "END\r\n"])
+            if kind == "unknown":
+                a = [E(b"bogus command"), E(tok)]
+            elif kind == "config-error":
+                a = [E(b"config get cluster"), E(tok)]
+                nodes[0]["opts"] = {"cluster": "error"}
+            else:
+                a = [E(b"incr " + pfx + b"k1 notanumber"), E(tok)]
         elif m == "raw_config":
             m = "raw_command"
             a = [E(b"config get cluster")]
